@@ -110,6 +110,27 @@ def bastion_part(work, rep, tier, seed, prop):
     rep.cov["longest_proof_through_the_endpoint"] = max([int(m.group(1)) for e in posts for m in [re.search(r"proof=(\d+)", e.get("conc", ""))] if m] or [0])
 
 
+def endpoint_e2e_part(work, rep, tier, seed, prop, kinds, prod):
+    """requests of the given body kinds, 40 of each after one accepted checkpoint, through the real FeedBastion (child process) or the production
+    binary (real flags, Prometheus factory, verbosity 2); judged by Trace_Bastion for `prop`"""
+    build_driver()
+    c = bconsts("quick")
+    E = {"k": "empty"}
+    tofu = {"op": "post", "kind": "ok", "log": "l1", "req": {"auth": "good", "old": 0, "b": 0, "n": 1, "extra": 0, "stale": 0, "ext": 0, "pf": E}}
+    grow = {"op": "post", "kind": "ok", "log": "l1", "req": {"auth": "good", "old": 1, "b": 0, "n": 2, "extra": 0, "stale": 0, "ext": 0, "pf": {"k": "right", "b": 0, "m": 1, "n": 2}}}
+    runs = [{"id": "e2e-%s-%s" % (prop, k_), "limit": 100000, "steps": [tofu] + [{"op": "post", "kind": k_, "log": "l1"}] * 40 + [grow]} for k_ in kinds]
+    rp, rt = work.path("epx-%s.jsonl" % prop), work.path("epx-%s.ndjson" % prop)
+    write_runs(rp, params_of(c), runs)
+    o, dt = run_driver(["bastion-e2e", "-in", rp, "-out", rt, "-dir", work.sub("db"), "-seed", str(seed)] + (["-prod", build_prod_binary()] if prod else []), timeout=3000)
+    rep.notes.append("endpoint e2e%s: %s" % (" (production binary)" if prod else "", o.strip()))
+    events = read_ndjson(rt)
+    fails = bastion_judge(work, rep, c, rt, name="judge-epx")
+    seqfam.settle(rep, prop, fails, events, c)
+    n = sum(1 for e in events if e["e"] == "post")
+    rep.cov["evaluations"] += n
+    rep.cov["requests_end_to_end" + ("_production_binary" if prod else "")] = rep.cov.get("requests_end_to_end" + ("_production_binary" if prod else ""), 0) + n
+
+
 def c10(work, tier, seed, replay):
     rep = Report("C10", tier, seed, "model_checking")
     rng = random.Random(seed)
@@ -267,6 +288,8 @@ def c11(work, tier, seed, replay):
     o, dt = run_driver(["body", "-in", vec, "-out", tp, "-seed", str(seed), "-reps", "2" if tier == "quick" else "6", "-proofs", "400" if tier == "quick" else "4000",
                         "-writer-out", wout, "-writer-vec", win])
     rep.notes.append(o.strip())
+    # bodies longer than what the endpoint reads (16 KiB), through the endpoint as the real FeedBastion sets it up: refused, not cut and understood
+    endpoint_e2e_part(work, rep, tier, seed, "C11", ["oversize", "noblank"], prod=False)
     events = read_ndjson(tp)
     jc = dict(c)
     jc["TraceFile"] = tp
